@@ -948,6 +948,11 @@ func (vc *VC) applyContract(fx *FuncCtx, st *State, fc *FuncContract, sig *types
 	for _, e := range fc.Ensures {
 		g, err := env2.evalBool(e.Expr)
 		if err != nil {
+			if strings.Contains(err.Error(), "unknown identifier") {
+				// the clause speaks about the callee's own local variables: it is proved inside the callee and
+				// gives callers nothing
+				continue
+			}
 			st.setTaint("ensures clause of " + callee + " (" + e.Label + "): " + err.Error())
 			continue
 		}
